@@ -17,6 +17,17 @@ def sing (xs : List α) : List (List α) := xs.map (fun x => [x])
 @[simp] theorem sing_cons (x : α) (xs : List α) : sing (x :: xs) = [x] :: sing xs := rfl
 @[simp] theorem sing_length (xs : List α) : (sing xs).length = xs.length := by simp [sing]
 
+theorem sing_injective {a b : List α} (h : sing a = sing b) : a = b := by
+  induction a generalizing b with
+  | nil => cases b with
+    | nil => rfl
+    | cons y b => simp [sing] at h
+  | cons x a ih => cases b with
+    | nil => simp [sing] at h
+    | cons y b =>
+      simp only [sing_cons, List.cons.injEq] at h
+      rw [h.1.1, ih h.2]
+
 /-- induction over lists from the right -/
 theorem snocInd {motive : List α → Prop} (nil : motive [])
     (snoc : ∀ xs x, motive xs → motive (xs ++ [x])) (l : List α) : motive l := by
